@@ -1,21 +1,536 @@
 package main
 
-// ReplayResult describes the attempt to reproduce a solver model on the real code.
+import (
+	"bytes"
+	"context"
+	"encoding/json"
+	"go/ast"
+	goparser "go/parser"
+	"go/token"
+	"os"
+	"os/exec"
+	"path/filepath"
+	"regexp"
+	"sort"
+	"strconv"
+	"strings"
+	"time"
+)
+
+// ReplayResult describes the attempt to reproduce a failed obligation on the real code.
 type ReplayResult struct {
 	Attempted bool   `json:"attempted"`
 	Confirmed bool   `json:"confirmed"`
 	Note      string `json:"note"`
-	Test      string `json:"test,omitempty"`
+	Driver    string `json:"driver,omitempty"`
+	Input     string `json:"input,omitempty"`
+	Panic     string `json:"panic,omitempty"`
+	Godebug   string `json:"godebug,omitempty"`
+	Command   string `json:"command,omitempty"`
 	Output    string `json:"output,omitempty"`
+	Seconds   float64 `json:"seconds,omitempty"`
 }
 
-// tryReplay turns the model of a failed obligation into an in-package test
-// run against /repo (go test -overlay).  Implemented for functions whose
-// inputs are plain data; otherwise it reports why no input was built.
-func tryReplay(P *Program, o *Oblig) *ReplayResult {
-	return replayObligation(P, o)
-}
+// A failed no-panic obligation names a source line.  The solver's model of a
+// heap-shaped input (syntax trees, lexer states) is not turned into a Go value;
+// instead the real code is driven through the public entry points of the
+// obligation's package over a systematic corpus (every string literal of the
+// repository's own tests plus all short sequences over an alphabet of shell
+// tokens), and a panic whose stack passes through that line is the failing
+// input.  The harness is an external test injected with `go test -overlay`;
+// nothing is written to /repo and the scratch directory is removed.
+
+var replayKinds = map[string]bool{"bounds": true, "slice": true, "nil": true, "assert": true, "div": true, "shift": true, "nilmap": true, "make": true, "repeat": true, "panic": true}
+
+func tryReplay(P *Program, o *Oblig) *ReplayResult { return replayObligation(P, o) }
 
 func replayObligation(P *Program, o *Oblig) *ReplayResult {
-	return &ReplayResult{Attempted: false, Note: "no replay harness for this function's inputs (heap-shaped or goroutine-bound); the model is recorded above"}
+	if o == nil || !replayKinds[o.Kind] {
+		return &ReplayResult{Attempted: false, Note: "replay is implemented for no-panic obligations (a panic through the obligation's source line is searched for); this obligation is a contract clause without a run-time oracle"}
+	}
+	// "pkg/file.go:line"
+	m := regexp.MustCompile(`^([a-z]+)/([A-Za-z0-9_.]+\.go):(\d+)`).FindStringSubmatch(o.Pos)
+	if m == nil {
+		return &ReplayResult{Attempted: false, Note: "obligation has no source line in the repository (" + o.Pos + ")"}
+	}
+	pkg, file, line := m[1], m[2], m[3]
+	if strings.HasPrefix(file, "zz_verif_") {
+		return &ReplayResult{Attempted: false, Note: "obligation lies in a grammar action extracted for the run; its line does not exist in the compiled file"}
+	}
+	want := pkg + "/" + file + ":" + line
+	start := time.Now()
+	scratch, err := os.MkdirTemp("", "govc-replay-")
+	if err != nil {
+		return &ReplayResult{Attempted: false, Note: "no scratch directory: " + err.Error()}
+	}
+	defer os.RemoveAll(scratch)
+	corpus := replayCorpus(P.Repo)
+	cdata, _ := json.Marshal(corpus)
+	os.WriteFile(filepath.Join(scratch, "corpus.json"), cdata, 0o644)
+	// drivers to try, most specific first
+	drivers := map[string][]string{
+		"parser":  {"parser"},
+		"ast":     {"ast"},
+		"printer": {"printer"},
+		"pattern": {"pattern"},
+		"interp":  {"interp"},
+	}[pkg]
+	if drivers == nil {
+		return &ReplayResult{Attempted: false, Note: "no driver for package " + pkg}
+	}
+	var last *ReplayResult
+	for _, d := range drivers {
+		for _, gd := range []string{"", "panicnil=0"} {
+			r := runReplayDriver(P.Repo, scratch, d, want, gd)
+			r.Seconds = time.Since(start).Seconds()
+			if r.Confirmed {
+				return r
+			}
+			last = r
+			if o.Kind != "panic" {
+				break // the panicnil setting only matters for explicit panics
+			}
+		}
+	}
+	return last
+}
+
+func runReplayDriver(repo, scratch, driver, want, godebug string) *ReplayResult {
+	src := replayDriverSource(driver)
+	tf := filepath.Join(scratch, driver+"_replay_test.go")
+	os.WriteFile(tf, []byte(src), 0o644)
+	ov := map[string]map[string]string{"Replace": {filepath.Join(repo, driver, "zz_verif_replay_test.go"): tf}}
+	ovd, _ := json.Marshal(ov)
+	ovf := filepath.Join(scratch, "overlay-"+driver+".json")
+	os.WriteFile(ovf, ovd, 0o644)
+	ctx, cancel := context.WithTimeout(context.Background(), 240*time.Second)
+	defer cancel()
+	args := []string{"test", "-overlay", ovf, "-vet=off", "-count=1", "-timeout", "200s", "-v", "-run", "TestVerifReplay", "./" + driver + "/"}
+	cmd := exec.CommandContext(ctx, "go", args...)
+	cmd.Dir = repo
+	env := append(os.Environ(), "GOFLAGS=-mod=mod", "GOPROXY=off", "GOSUMDB=off", "GOTOOLCHAIN=local",
+		"VERIF_REPLAY_CORPUS="+filepath.Join(scratch, "corpus.json"), "VERIF_REPLAY_WANT="+want, "VERIF_REPLAY_TMP="+scratch)
+	if godebug != "" {
+		env = append(env, "GODEBUG="+godebug)
+	}
+	cmd.Env = env
+	var out bytes.Buffer
+	cmd.Stdout = &out
+	cmd.Stderr = &out
+	_ = cmd.Run()
+	text := out.String()
+	res := &ReplayResult{Attempted: true, Driver: driver + " driver (external test injected with go test -overlay)", Godebug: godebug,
+		Command: "cd " + repo + " && go " + strings.Join(args, " ")}
+	// a recovered panic through the wanted line
+	for _, l := range strings.Split(text, "\n") {
+		if strings.HasPrefix(l, "REPLAY-HIT ") {
+			var h struct{ Input, Panic string }
+			if json.Unmarshal([]byte(l[len("REPLAY-HIT "):]), &h) == nil {
+				res.Confirmed = true
+				res.Input = h.Input
+				res.Panic = h.Panic
+				res.Note = "panic through " + want + " reproduced on the real code"
+				return res
+			}
+		}
+	}
+	// a crash of the test binary (panic in a goroutine the driver cannot recover from)
+	if strings.Contains(text, "\npanic: ") || strings.HasPrefix(text, "panic: ") {
+		if strings.Contains(text, want) {
+			lastIn := ""
+			for _, l := range strings.Split(text, "\n") {
+				if strings.HasPrefix(l, "REPLAY-INPUT ") {
+					lastIn = l[len("REPLAY-INPUT "):]
+				}
+			}
+			if s, err := strconv.Unquote(lastIn); err == nil {
+				lastIn = s
+			}
+			res.Confirmed = true
+			res.Input = lastIn
+			k := strings.Index(text, "panic: ")
+			res.Panic = truncate(text[k:], 600)
+			res.Note = "the test process was brought down by a panic through " + want + " (last input announced before the crash)"
+			return res
+		}
+	}
+	n := ""
+	for _, l := range strings.Split(text, "\n") {
+		if strings.HasPrefix(l, "REPLAY-DONE ") {
+			n = l[len("REPLAY-DONE "):]
+		}
+	}
+	res.Note = "no input of the corpus panics through " + want + " (" + n + ")"
+	res.Output = truncate(text, 1500)
+	return res
+}
+
+// replayCorpus: the string literals of the repository's tests plus short
+// sequences over an alphabet of shell tokens.
+func replayCorpus(repo string) map[string][]string {
+	seen := map[string]bool{}
+	var lits []string
+	add := func(s string) {
+		if len(s) <= 200 && !seen[s] {
+			seen[s] = true
+			lits = append(lits, s)
+		}
+	}
+	fset := token.NewFileSet()
+	files, _ := filepath.Glob(filepath.Join(repo, "*", "*_test.go"))
+	sort.Strings(files)
+	for _, f := range files {
+		af, err := goparser.ParseFile(fset, f, nil, 0)
+		if err != nil {
+			continue
+		}
+		ast.Inspect(af, func(n ast.Node) bool {
+			if bl, ok := n.(*ast.BasicLit); ok && bl.Kind == token.STRING {
+				if s, err := strconv.Unquote(bl.Value); err == nil {
+					add(s)
+				}
+			}
+			return true
+		})
+	}
+	shell := []string{"a", " ", "\n", ";", "&", "|", "(", ")", "<", ">", "<<", "<<-", "-", "'", "\"", "\\", "$", "${", "}", "{", "`", "#", "=", "~", "*", "?", "[", "]", ":", "%", "+", "!", "0", "1", "é", "\xff",
+		"if ", "then ", "fi", "for ", "in ", "do ", "done", "case ", "esac", "while ", "E\n", "x=", "$x", "$((", "))", "$(", "/"}
+	var seqs []string
+	for _, a := range shell {
+		seqs = append(seqs, a)
+		for _, b := range shell {
+			seqs = append(seqs, a+b)
+		}
+	}
+	// length three over a smaller alphabet
+	small := []string{"a", " ", "\n", ";", "&", "|", "(", ")", "<<", "'", "\"", "\\", "$", "${", "}", "`", "#", "=", "E\n", "$((", "))", "$(", "é"}
+	for _, a := range small {
+		for _, b := range small {
+			for _, c := range small {
+				seqs = append(seqs, a+b+c)
+			}
+		}
+	}
+	arith := []string{"1", "0", "x", "e", "9223372036854775807", "-", "+", "~", "!", "*", "/", "%", "<<", ">>", "<", "<=", "==", "!=", "&", "^", "|", "&&", "||", "?", ":", "=", "+=", "/=", "%=", "<<=", "++", "--", "(", ")", "08", "0x", " "}
+	var ar []string
+	for _, a := range arith {
+		ar = append(ar, a)
+		for _, b := range arith {
+			ar = append(ar, a+b)
+			for _, c := range []string{"1", "0", "x", ")", "-1", "++"} {
+				ar = append(ar, a+b+c)
+			}
+		}
+	}
+	pat := []string{"a", "b", "*", "?", "[", "]", "!", "^", "-", "\\", "/", ".", "é", "[:alpha:]", "[.", "[=", "[:", ":]", "\xff", "\n"}
+	var ps []string
+	for _, a := range pat {
+		ps = append(ps, a)
+		for _, b := range pat {
+			ps = append(ps, a+b)
+			for _, c := range pat {
+				ps = append(ps, a+b+c)
+			}
+		}
+	}
+	return map[string][]string{"lits": lits, "shell": seqs, "arith": ar, "pattern": ps,
+		"subjects": {"", "a", "ab", "ba", "a/b", ".a", "é", "a\nb", "\xff", "a\xffb", "[", "\\", "aé"}}
+}
+
+func replayDriverSource(pkg string) string {
+	common := `
+import (
+	"encoding/json"
+	"fmt"
+	"os"
+	"reflect"
+	"runtime/debug"
+	"strings"
+	"testing"
+	"time"
+` + map[string]string{
+		"parser":  "\t\"github.com/hattya/go.sh/ast\"\n\t\"github.com/hattya/go.sh/interp\"\n\t\"github.com/hattya/go.sh/parser\"\n",
+		"ast":     "\t\"github.com/hattya/go.sh/ast\"\n\t\"github.com/hattya/go.sh/interp\"\n\t\"github.com/hattya/go.sh/parser\"\n",
+		"printer": "\t\"github.com/hattya/go.sh/ast\"\n\t\"github.com/hattya/go.sh/interp\"\n\t\"github.com/hattya/go.sh/parser\"\n\t\"github.com/hattya/go.sh/printer\"\n",
+		"interp":  "\t\"github.com/hattya/go.sh/ast\"\n\t\"github.com/hattya/go.sh/interp\"\n\t\"github.com/hattya/go.sh/parser\"\n",
+		"pattern": "\t\"github.com/hattya/go.sh/pattern\"\n",
+	}[pkg] + `)
+
+var _ = reflect.TypeOf
+var _ = strings.Contains
+var _ = time.Second
+
+type corpusT struct {
+	Lits, Shell, Arith, Pattern, Subjects []string
+}
+
+var want = os.Getenv("VERIF_REPLAY_WANT")
+var cases int
+
+func loadCorpus(t *testing.T) corpusT {
+	var c corpusT
+	d, err := os.ReadFile(os.Getenv("VERIF_REPLAY_CORPUS"))
+	if err != nil {
+		t.Skip("no corpus")
+	}
+	var m map[string][]string
+	json.Unmarshal(d, &m)
+	c.Lits, c.Shell, c.Arith, c.Pattern, c.Subjects = m["lits"], m["shell"], m["arith"], m["pattern"], m["subjects"]
+	return c
+}
+
+// try runs f; a panic whose stack passes through the wanted line ends the search.
+func try(input string, f func()) (hit bool) {
+	cases++
+	defer func() {
+		if e := recover(); e != nil {
+			st := string(debug.Stack())
+			if strings.Contains(st, want) {
+				b, _ := json.Marshal(map[string]string{"Input": input, "Panic": fmt.Sprint(e)})
+				fmt.Fprintf(os.Stderr, "REPLAY-HIT %s\n", b)
+				hit = true
+			}
+		}
+	}()
+	f()
+	return false
+}
+
+func done() { fmt.Fprintf(os.Stderr, "REPLAY-DONE %d cases\n", cases) }
+`
+	parse := `
+// parseAll parses src under a watchdog; the lexer goroutine cannot be recovered
+// from, so the input is announced first (the last one announced is the culprit
+// if the process dies).
+func parseAll(src string, env *interp.ExecEnv) []ast.Command {
+	fmt.Fprintf(os.Stderr, "REPLAY-INPUT %q\n", src)
+	type res struct{ cmds []ast.Command }
+	ch := make(chan res, 1)
+	go func() {
+		cmds, _, _ := parser.ParseCommands(env, "replay", src)
+		ch <- res{cmds}
+	}()
+	select {
+	case r := <-ch:
+		return r.cmds
+	case <-time.After(2 * time.Second):
+		return nil
+	}
+}
+
+func sources(c corpusT) []string {
+	var out []string
+	out = append(out, c.Lits...)
+	out = append(out, c.Shell...)
+	return out
+}
+
+func aliasEnv() *interp.ExecEnv {
+	env := interp.NewExecEnv("sh")
+	env.Aliases["a"] = "b "
+	env.Aliases["b"] = "a"
+	env.Aliases["if"] = "x"
+	env.Aliases["é"] = "é "
+	return env
+}
+
+// walk visits every value reachable from v that implements ast.Node.
+func walk(v reflect.Value, f func(ast.Node), depth int) {
+	if depth > 40 || !v.IsValid() {
+		return
+	}
+	switch v.Kind() {
+	case reflect.Interface, reflect.Ptr:
+		if v.IsNil() {
+			return
+		}
+		if v.CanInterface() {
+			if n, ok := v.Interface().(ast.Node); ok && v.Kind() == reflect.Ptr {
+				f(n)
+			}
+		}
+		walk(v.Elem(), f, depth+1)
+	case reflect.Slice:
+		if v.CanInterface() {
+			if n, ok := v.Interface().(ast.Node); ok && v.Len() > 0 {
+				f(n)
+			}
+		}
+		for i := 0; i < v.Len(); i++ {
+			walk(v.Index(i), f, depth+1)
+		}
+	case reflect.Struct:
+		for i := 0; i < v.NumField(); i++ {
+			if v.Type().Field(i).PkgPath == "" {
+				walk(v.Field(i), f, depth+1)
+			}
+		}
+	}
+}
+`
+	switch pkg {
+	case "parser":
+		return "package parser_test\n" + common + parse + `
+func TestVerifReplay(t *testing.T) {
+	c := loadCorpus(t)
+	defer done()
+	for _, src := range sources(c) {
+		if try(src, func() { parseAll(src, nil) }) {
+			return
+		}
+		if try("aliases a='b ' b=a if=x; "+src, func() { parseAll(src, aliasEnv()) }) {
+			return
+		}
+	}
+}
+`
+	case "ast":
+		return "package ast_test\n" + common + parse + `
+func TestVerifReplay(t *testing.T) {
+	c := loadCorpus(t)
+	defer done()
+	for _, src := range sources(c) {
+		cmds := parseAll(src, nil)
+		hit := false
+		for _, cmd := range cmds {
+			walk(reflect.ValueOf(cmd), func(n ast.Node) {
+				if !hit && try(src, func() { n.Pos(); n.End() }) {
+					hit = true
+				}
+			}, 0)
+		}
+		if hit {
+			return
+		}
+	}
+}
+`
+	case "printer":
+		return "package printer_test\n" + common + parse + `
+type sink struct{}
+
+func (sink) Write(p []byte) (int, error) { return len(p), nil }
+
+func TestVerifReplay(t *testing.T) {
+	c := loadCorpus(t)
+	defer done()
+	cfgs := []printer.Config{{}, {Indent: printer.Space, Width: 8}, {Indent: printer.Space, Width: 300}, {Redir: printer.Space, Assign: printer.Space, Case: true, Do: printer.Newline, Then: printer.Newline}}
+	for _, src := range sources(c) {
+		cmds := parseAll(src, nil)
+		for _, cmd := range cmds {
+			for i := range cfgs {
+				cfg := cfgs[i]
+				if try(fmt.Sprintf("%q with printer.Config %+v", src, cfg), func() { cfg.Fprint(sink{}, cmd) }) {
+					return
+				}
+			}
+			hit := false
+			walk(reflect.ValueOf(cmd), func(n ast.Node) {
+				if !hit && try(src, func() { printer.Fprint(sink{}, n) }) {
+					hit = true
+				}
+			}, 0)
+			if hit {
+				return
+			}
+		}
+	}
+	// deep nesting with wide indentation
+	deep := strings.Repeat("if a; then ", 40) + "b" + strings.Repeat("; fi", 40)
+	for _, cmd := range parseAll(deep, nil) {
+		cfg := printer.Config{Indent: printer.Space, Width: 8}
+		if try(deep+" with Width 8", func() { cfg.Fprint(sink{}, cmd) }) {
+			return
+		}
+	}
+}
+`
+	case "interp":
+		return "package interp_test\n" + common + parse + `
+func words(cmds []ast.Command) []ast.Word {
+	var out []ast.Word
+	for _, cmd := range cmds {
+		walk(reflect.ValueOf(cmd), func(n ast.Node) {
+			if w, ok := n.(ast.Word); ok {
+				out = append(out, w)
+			}
+		}, 0)
+	}
+	return out
+}
+
+func newEnv(args ...string) *interp.ExecEnv {
+	env := interp.NewExecEnv("sh", args...)
+	env.Set("x", "a b")
+	env.Set("e", "")
+	env.Set("p", "*?[a]")
+	env.Set("n", "08")
+	return env
+}
+
+func TestVerifReplay(t *testing.T) {
+	c := loadCorpus(t)
+	defer done()
+	modes := []interp.ExpMode{0, interp.Arith, interp.Assign, interp.Literal, interp.Pattern, interp.Quote, interp.Assign | interp.Quote, interp.Literal | interp.Pattern}
+	dir, _ := os.MkdirTemp(os.Getenv("VERIF_REPLAY_TMP"), "cwd")
+	os.Chdir(dir)
+	for _, src := range sources(c) {
+		for _, w := range words(parseAll(src, nil)) {
+			for _, args := range [][]string{nil, {"1", "", "c d"}} {
+				for _, ifs := range []string{" \t\n", "", ":", "\xff", "é "} {
+					for _, m := range modes {
+						env := newEnv(args...)
+						env.Set("IFS", ifs)
+						if try(fmt.Sprintf("Expand(%q) mode %d args %q IFS %q", src, m, args, ifs), func() { env.Expand(w, m) }) {
+							return
+						}
+					}
+				}
+			}
+		}
+	}
+	for _, ex := range append(c.Arith, c.Lits...) {
+		env := newEnv("1")
+		if try("Eval("+fmt.Sprintf("%q", ex)+")", func() { fmt.Fprintf(os.Stderr, "REPLAY-INPUT %q\n", "Eval "+ex); env.Eval(ex) }) {
+			return
+		}
+	}
+	for o := interp.Option(0); o < 1<<16; o += 257 {
+		if try(fmt.Sprintf("Option(%d).String()", o), func() { _ = o.String() }) {
+			return
+		}
+	}
+}
+`
+	case "pattern":
+		return "package pattern_test\n" + common + `
+func TestVerifReplay(t *testing.T) {
+	c := loadCorpus(t)
+	defer done()
+	modes := []pattern.Mode{pattern.Smallest | pattern.Prefix, pattern.Largest | pattern.Prefix, pattern.Smallest | pattern.Suffix, pattern.Largest | pattern.Suffix, 0}
+	pats := append(c.Pattern, c.Lits...)
+	for _, p := range pats {
+		for _, s := range c.Subjects {
+			for _, m := range modes {
+				if try(fmt.Sprintf("Match([%q], %d, %q)", p, m, s), func() { pattern.Match([]string{p}, m, s) }) {
+					return
+				}
+			}
+		}
+	}
+	dir, _ := os.MkdirTemp(os.Getenv("VERIF_REPLAY_TMP"), "glob")
+	os.Chdir(dir)
+	os.MkdirAll("d/.h", 0o755)
+	os.WriteFile("a", nil, 0o644)
+	os.WriteFile(".b", nil, 0o644)
+	os.WriteFile("d/c", nil, 0o644)
+	for _, p := range pats {
+		if try(fmt.Sprintf("Glob(%q)", p), func() { pattern.Glob(p) }) {
+			return
+		}
+	}
+}
+`
+	}
+	return ""
 }
